@@ -81,6 +81,11 @@ def cases(tier, seed):
                             continue
                         yield {"shape": shape, "n": n, "ctx": ctx, "crash": crash,
                                "later": later}
+                        if n in (2, 3) and ctx is not True and (crash is None or crash[1] == 1):
+                            # the same with every pipeline deep-copied / pickled before it runs
+                            for dup in ("deepcopy", "pickle"):
+                                yield {"shape": shape, "n": n, "ctx": ctx, "crash": crash,
+                                       "later": later, "dup": dup}
 
 
 # ------------------------------------------------------------------ elements
@@ -91,6 +96,40 @@ class Counters(object):
         self.down = 0
         self.fills = 0
         self.computes = 0
+
+    def __deepcopy__(self, memo):
+        return self         # instrumentation is shared by a pipeline and its copies
+
+    def __reduce__(self):
+        # ... also by a pickle round trip made inside this process
+        _COUNTERS[id(self)] = self
+        return (_counters_by_id, (id(self),))
+
+
+_COUNTERS = {}
+
+
+def _counters_by_id(i):
+    return _COUNTERS[i]
+
+
+COPY_MODE = {"mode": None}
+
+
+def _D(obj):
+    """The pipeline object as it is, or (recipe flag "dup") a deep copy / a pickle round trip
+    of it made just before the run: a copied Cache is a Cache with the same settings."""
+    m = COPY_MODE["mode"]
+    if m == "deepcopy":
+        return copy.deepcopy(obj)
+    if m == "pickle":
+        import pickle
+        try:
+            return pickle.loads(pickle.dumps(obj))
+        except Exception:  # pylint: disable=broad-except
+            # instrumented elements / closures that cannot be pickled: deep copy instead
+            return copy.deepcopy(obj)
+    return obj
 
 
 def _add(v, d):
@@ -242,46 +281,46 @@ class Pipeline(object):
         self.hoisted_type = None
         if shape == "seq":
             seq = lena.core.Sequence(Up(c), C(f1, recompute=recompute), down)
-            self.start = lambda: seq.run(probe)
+            self.start = lambda: _D(seq).run(probe)
             self._seq = seq
         elif shape == "source":
             src = lena.core.Source(lambda: probe, Up(c), C(f1, recompute=recompute), down)
-            self.start = lambda: src()
+            self.start = lambda: _D(src)()
             self._seq = lena.core.Sequence(Up(c), C(f1, recompute=recompute), down)
         elif shape == "two":
             seq = lena.core.Sequence(Up(c), C(f1, recompute=recompute), Mid(c),
                                      C(f2, recompute=recompute), down)
-            self.start = lambda: seq.run(probe)
+            self.start = lambda: _D(seq).run(probe)
             self._seq = seq
         elif shape == "first":
             seq = lena.core.Sequence(C(f1, recompute=recompute), down)
-            self.start = lambda: seq.run(probe)
+            self.start = lambda: _D(seq).run(probe)
             self._seq = seq
         elif shape == "last":
             seq = lena.core.Sequence(Up(c), C(f1, recompute=recompute))
-            self.start = lambda: seq.run(probe)
+            self.start = lambda: _D(seq).run(probe)
             self._seq = seq
         elif shape == "adjacent":
             seq = lena.core.Sequence(Up(c), C(f1, recompute=recompute),
                                      C(f2, recompute=recompute), down)
-            self.start = lambda: seq.run(probe)
+            self.start = lambda: _D(seq).run(probe)
             self._seq = seq
         elif shape == "acc":
             seq = lena.core.Sequence(Acc(c), C(f1, recompute=recompute), down)
-            self.start = lambda: seq.run(probe)
+            self.start = lambda: _D(seq).run(probe)
             self._seq = seq
         elif shape == "split":
             sp = lena.core.Split([(Up(c), C(f1, recompute=recompute), down)], bufsize=None)
-            self.start = lambda: sp.run(probe)
+            self.start = lambda: _D(sp).run(probe)
             self._seq = lena.core.Sequence(Up(c), C(f1, recompute=recompute), down)
         elif shape == "split2":
             sp = lena.core.Split([(gen.Tag("b0"),),
                                   (Up(c), C(f1, recompute=recompute), down)], bufsize=1000)
-            self.start = lambda: sp.run(probe)
+            self.start = lambda: _D(sp).run(probe)
             self._seq = lena.core.Sequence(Up(c), C(f1, recompute=recompute), down)
         elif shape == "grow":
             seq = lena.core.Sequence(Grow(c), C(f1, recompute=recompute), down)
-            self.start = lambda: seq.run(probe)
+            self.start = lambda: _D(seq).run(probe)
             self._seq = seq
         else:
             raise ValueError(shape)
@@ -293,9 +332,9 @@ class Pipeline(object):
                 new = lena.core.alter_sequence(seq)
             self.hoisted_type = type(new).__name__
             if isinstance(new, lena.core.Source):
-                self.start = lambda: new()
+                self.start = lambda: _D(new)()
             else:
-                self.start = lambda: new.run(probe)
+                self.start = lambda: _D(new).run(probe)
 
     def run(self, take=None):
         """Consume (at most *take*) values; returns (snapshots, exception or None)."""
@@ -336,9 +375,11 @@ class Pipeline(object):
 
 def run_case(r, obs):
     d = tempfile.mkdtemp(prefix="rv_c18_")
+    COPY_MODE["mode"] = r.get("dup")
     try:
         _run_case(r, obs, d)
     finally:
+        COPY_MODE["mode"] = None
         audit.stop()
         shutil.rmtree(d, ignore_errors=True)
 
